@@ -22,27 +22,33 @@
 (*   Leave    deferred Route.Unlock in ServeHTTP; the response is complete   *)
 (*   Flush    FlushServiceCache / aging in addToCache (NeedsLock(true))      *)
 (*                                                                           *)
-(* Impl = "asis" : URL-part variables are stored in tab[r] BEFORE the merge, *)
-(*                 and the saved table is the first request's whole tab[r]   *)
-(* Impl = "fixed": URL-part variables are stored in the child table rt[r]    *)
-(*                 (never saved, never overwritten by a merge)               *)
-(* Lock = "asis" : Unlock releases the mutex whenever its counter becomes 1  *)
-(* Lock = "fixed": Unlock releases the mutex only if first use holds it      *)
-(* Lock = "none" : the route lock is not modelled (trace validation)         *)
+(* Defects \subseteq {"parts", "unsaved", "unlock"} selects the as-is behaviour *)
+(* of three places (the empty set is the repaired design):                   *)
+(*  "parts"   URL-part variables are stored in tab[r] BEFORE the merge and   *)
+(*            the saved table is the first request's whole tab[r]; repaired: *)
+(*            they are stored in the child table rt[r] (never saved/merged)  *)
+(*  "unsaved" a cache entry whose symbols have not been saved yet (its first *)
+(*            run is still in progress) is used as a hit, so the request     *)
+(*            runs without the symbols compilation provides (the auto-       *)
+(*            imported packages); repaired: such an entry counts as a miss   *)
+(*  "unlock"  Route.Unlock releases the mutex whenever its counter becomes 1 *)
+(*            (fatal when nobody holds it); repaired: only if a first use    *)
+(*            holds it                                                        *)
+(* Lock = FALSE: the route lock is not modelled (trace validation)           *)
 EXTENDS Integers, FiniteSets, Sequences, TLC
 
 CONSTANTS Reqs,       \* request ids (strings)
           Bad,        \* requests whose service run ends in a runtime error
           Shapes,     \* the service shapes (sets of observation keys) considered
           MaxEvict,   \* bound on Flush steps
-          Impl, Lock
+          Defects, Lock
 
 (* what an observation key of a generated service reads *)
 Kind == [parm |-> "req", body |-> "req", user |-> "req", hdr |-> "req", partmap |-> "req",
-         partvar |-> "sym",
+         partvar |-> "sym", pkg |-> "lib",
          loc |-> "local", arr |-> "local", map |-> "local", rec |-> "local", fn |-> "local"]
 Field == [parm |-> "parm", body |-> "body", user |-> "user", hdr |-> "hdr", partmap |-> "part",
-          partvar |-> "part",
+          partvar |-> "part", pkg |-> "parm",
           loc |-> "parm", arr |-> "parm", map |-> "parm", rec |-> "parm", fn |-> "parm"]
 Keys == DOMAIN Kind
 
@@ -80,18 +86,18 @@ Init == /\ svc \in Shapes
 
 Obs(a, r, y) == last' = [act |-> a, r |-> r, reply |-> y]
 
-(* setupServerSymbols + the request object + (as is) the URL-part variables + AutoImport(false) *)
-BaseTab(r) == [n \in {"_request", "auto"} \cup (IF Impl = "asis" THEN {"part"} ELSE {}) |->
+(* setupServerSymbols + the request object + (as is) the URL-part variables *)
+BaseTab(r) == [n \in {"_request"} \cup (IF "parts" \in Defects THEN {"part"} ELSE {}) |->
                  CASE n = "_request" -> r
-                   [] n = "auto"     -> "AUTO"
                    [] n = "part"     -> Own(r, "part")]
+With(t, n, v) == [m \in DOMAIN t \cup {n} |-> IF m = n THEN v ELSE t[m]]
 
 (* symbols.Merge: every symbol of the source that is not read-only is stored in the target *)
 Merge(t, s) == [n \in DOMAIN t \cup {m \in DOMAIN s : ~ReadOnly(m)} |->
                   IF n \in DOMAIN s /\ ~ReadOnly(n) THEN s[n] ELSE t[n]]
 
 (* the child table created for the run; (fixed) the URL-part variables live here *)
-ChildTab(r) == IF Impl = "fixed" THEN [n \in {"part"} |-> Own(r, "part")] ELSE NoTab
+ChildTab(r) == IF "parts" \notin Defects THEN [n \in {"part"} |-> Own(r, "part")] ELSE NoTab
 
 (* scope chain lookup: child table first, then the request's root table *)
 Look(r, n) == IF n \in DOMAIN rt[r] THEN rt[r][n]
@@ -103,9 +109,9 @@ Enter(r) == /\ pc' = [pc EXCEPT ![r] = "entered"]
 
 Arrive(r) ==
   /\ ~crashed /\ pc[r] = "new"
-  /\ IF Lock = "none" \/ ~route.locked
+  /\ IF ~Lock \/ ~route.locked
      THEN /\ Enter(r)
-          /\ route' = IF Lock # "none" /\ route.counter = 0 THEN [route EXCEPT !.locked = TRUE] ELSE route
+          /\ route' = IF Lock /\ route.counter = 0 THEN [route EXCEPT !.locked = TRUE] ELSE route
           /\ Obs("Arrive", r, "acquire")
      ELSE /\ pc' = [pc EXCEPT ![r] = "waiting"]
           /\ UNCHANGED <<tab, route>>
@@ -119,14 +125,14 @@ WokenTab == [r \in Reqs |-> IF pc[r] = "waiting" THEN BaseTab(r) ELSE tab[r]]
 Leave(r) ==
   /\ ~crashed /\ pc[r] \in {"finished", "failed"}
   /\ LET c1 == route.counter + 1
-         release == CASE Lock = "none"  -> FALSE
-                      [] Lock = "asis"  -> c1 = 1
-                      [] Lock = "fixed" -> route.locked
+         release == CASE ~Lock -> FALSE
+                      [] "unlock" \in Defects -> c1 = 1
+                      [] OTHER -> route.locked
      IN /\ IF release /\ ~route.locked
            THEN /\ crashed' = TRUE                       \* sync: unlock of unlocked mutex (fatal)
                 /\ pc' = pc /\ tab' = tab /\ route' = route
            ELSE /\ crashed' = crashed
-                /\ route' = IF Lock = "none" THEN route
+                /\ route' = IF ~Lock THEN route
                             ELSE [counter |-> c1, locked |-> IF release THEN FALSE ELSE route.locked]
                 /\ pc' = IF release THEN [Woken EXCEPT ![r] = "done"] ELSE [pc EXCEPT ![r] = "done"]
                 /\ tab' = IF release THEN WokenTab ELSE tab
@@ -134,13 +140,15 @@ Leave(r) ==
   /\ UNCHANGED <<svc, rt, ref, items, cur, sc, resp, evicts>>
 
 (* ---- the service cache ---- *)
+Usable == cur # 0 /\ ("unsaved" \in Defects \/ items[cur].saved)
 Lookup(r) ==
   /\ ~crashed /\ pc[r] = "entered" /\ sc = "none"
   /\ sc' = r
+  /\ tab' = [tab EXCEPT ![r] = With(tab[r], "auto", "AUTO")]          \* AutoImport(false) under serviceConcurrency
   /\ ref' = [ref EXCEPT ![r] = cur]
-  /\ pc' = [pc EXCEPT ![r] = IF cur # 0 THEN "hit" ELSE "miss"]
-  /\ Obs("Lookup", r, IF cur # 0 THEN "hit" ELSE "miss")
-  /\ UNCHANGED <<svc, tab, rt, items, cur, route, resp, evicts, crashed>>
+  /\ pc' = [pc EXCEPT ![r] = IF Usable THEN "hit" ELSE "miss"]
+  /\ Obs("Lookup", r, IF Usable THEN "hit" ELSE "miss")
+  /\ UNCHANGED <<svc, rt, items, cur, route, resp, evicts, crashed>>
 
 ReadS(r) ==
   /\ ~crashed /\ pc[r] = "hit" /\ sc = r
@@ -152,10 +160,10 @@ ReadS(r) ==
   /\ pc' = [pc EXCEPT ![r] = "ready"]
   /\ UNCHANGED <<svc, ref, items, cur, route, resp, evicts, crashed>>
 
-(* compile: AddStandard on the request's table, then addToCache *)
+(* compile: AddStandard and AutoImport(ego.compiler.import = true) on the request's table, then addToCache *)
 Add(r) ==
   /\ ~crashed /\ pc[r] = "miss" /\ sc = r
-  /\ tab' = [tab EXCEPT ![r] = [n \in DOMAIN tab[r] \cup {"std"} |-> IF n = "std" THEN "STD" ELSE tab[r][n]]]
+  /\ tab' = [tab EXCEPT ![r] = With(tab[r], "lib", "LIB")]
   /\ items' = Append(items, [saved |-> FALSE, s |-> NoTab])
   /\ cur' = Len(items) + 1
   /\ ref' = [ref EXCEPT ![r] = Len(items) + 1]
@@ -168,17 +176,19 @@ Add(r) ==
 (* ---- running the shared bytecode in the private child table ---- *)
 Value(r, k) == CASE Kind[k] = "req"   -> Own(Look(r, "_request"), Field[k])
                  [] Kind[k] = "sym"   -> Look(r, "part")
+                 [] Kind[k] = "lib"   -> Own(Look(r, "_request"), Field[k])   \* strings.ToLower(parameter): needs the auto-imported package
                  [] Kind[k] = "local" -> Own(Look(r, "_request"), Field[k])   \* a local assigned from the parameter, read back later
 
+Fails(r) == r \in Bad \/ (\E k \in svc : Kind[k] = "lib" /\ Look(r, "lib") = "undefined")
 Run(r) ==
-  /\ ~crashed /\ pc[r] = "ready" /\ r \notin Bad
+  /\ ~crashed /\ pc[r] = "ready" /\ ~Fails(r)
   /\ resp' = [resp EXCEPT ![r] = [status |-> 200, body |-> [k \in svc |-> Value(r, k)]]]
   /\ pc' = [pc EXCEPT ![r] = "ran"]
   /\ Obs("Run", r, "ok")
   /\ UNCHANGED <<svc, tab, rt, ref, items, cur, sc, route, evicts, crashed>>
 
 RunErr(r) ==
-  /\ ~crashed /\ pc[r] = "ready" /\ r \in Bad
+  /\ ~crashed /\ pc[r] = "ready" /\ Fails(r)
   /\ resp' = [resp EXCEPT ![r] = [status |-> 500, body |-> NoTab]]
   /\ cur' = 0                              \* delete(ServiceCache, endpoint); the route counter is NOT reset
   /\ pc' = [pc EXCEPT ![r] = "failed"]
@@ -200,7 +210,7 @@ Flush ==
   /\ ~crashed /\ evicts < MaxEvict
   /\ evicts' = evicts + 1
   /\ cur' = 0
-  /\ route' = IF cur # 0 /\ Lock # "none" THEN [route EXCEPT !.counter = 0] ELSE route
+  /\ route' = IF cur # 0 /\ Lock THEN [route EXCEPT !.counter = 0] ELSE route
   /\ Obs("Flush", "", IF cur # 0 THEN "evicted" ELSE "empty")
   /\ UNCHANGED <<svc, pc, tab, rt, ref, items, sc, resp, crashed>>
 
